@@ -5,6 +5,16 @@ from collections import namedtuple
 CooArray = namedtuple("CooArray", ["row", "col", "val", "key", "ind", "min", "depth"])
 
 COO_QUICKSORT_LIMIT = 1 << 16
+
+# verification hook (add-only, off unless VECTORIZERS_VERIF=1): lets the checks in /verif
+# reach the multi-level merge / growth paths of the accumulator with small corpora.
+import os as _verif_os
+
+if (
+    _verif_os.environ.get("VECTORIZERS_VERIF") == "1"
+    and _verif_os.environ.get("VECTORIZERS_VERIF_COO_LIMIT")
+):
+    COO_QUICKSORT_LIMIT = int(_verif_os.environ["VECTORIZERS_VERIF_COO_LIMIT"])
 COO_MEM_MULTIPLIER = 1.5
 
 
